@@ -87,7 +87,11 @@ def respell(dense, qkind, pform):
         k = qkind
         if k == 'none' and not ident:
             k = 'dense'
-        if k in ('int', 'bool', 'f32', 'sparse-int'):
+        if k == 'dia':
+            from scipy import sparse
+            isdiag = Qd.shape[0] == Qd.shape[1] and np.array_equal(Qd, np.diag(np.diag(Qd)))
+            Q = sparse.diags(np.diag(Qd).copy()) if isdiag else Qd.copy()    # DIA storage with a single offset 0
+        elif k in ('int', 'bool', 'f32', 'sparse-int'):
             # the same query spelled with another element type (only where the entries are representable exactly)
             exact = np.array_equal(Qd, np.round(Qd)) and (k != 'bool' or set(np.unique(Qd)) <= {0.0, 1.0})
             if not exact:
@@ -210,6 +214,42 @@ def check_structure(acc, domk, si, seed, tier):
             L2 = float(e2._lipschitz(ms2))
             if not abs(L2 - L) <= (1e-5 if qk == 'f32' else 1e-8) * max(1.0, L):   # a float32 query makes eigsh work in single precision
                 fails.append(('spelling-lipschitz', 'spelling %s/%s gives smoothness constant %.10g vs %.10g' % (qk, pf, L2, L)))
+    # diagonal (weighted identity) queries spelled dense and in DIA storage: same loss, gradient and smoothness constant
+    pkd = M.Problem(attrs, sizes, struct, si, 'pos', seed, kinds=['scaled', 'dense'])
+    eD, msD = setup(attrs, sizes, respell(pkd.dense, 'dense', 'tuple'), T, 'L2')
+    eS, msS = setup(attrs, sizes, respell(pkd.dense, 'dia', 'tuple'), T, 'L2')
+    if list(eD.model.cliques) == list(eS.model.cliques) == cl_list:
+        lD, gD = eD._marginal_loss(mu)
+        lS, gS = eS._marginal_loss(mu)
+        LD, LS = float(eD._lipschitz(msD)), float(eS._lipschitz(msS))
+        acc.evals += 1
+        if not (abs(lD - lS) <= 1e-10 * max(1.0, abs(lD)) and np.abs(flat(gD, cl_list) - flat(gS, cl_list)).max() <= 1e-10 * max(1.0, np.abs(flat(gD, cl_list)).max())):
+            fails.append(('spelling', 'weighted-identity queries in DIA storage give loss %.12g vs %.12g dense' % (lS, lD)))
+        if not abs(LD - LS) <= 1e-8 * max(1.0, LD):
+            fails.append(('spelling-lipschitz', 'weighted-identity queries: smoothness constant %.10g in DIA storage vs %.10g dense' % (LS, LD)))
+    # L1 derivative at count scale: total 1e7, residuals of a few records (tiny relative to the answers, not tiny in themselves)
+    if domk == 3:
+        probL = M.Problem(attrs, sizes, struct, si, 'pos', seed, total=1e7, noise_mult=3.0, sigmas=[1.0, 2.0])
+        eL, msL = setup(attrs, sizes, probL.fresh_measurements(), probL.T, 'L2')
+        clL = list(eL.model.cliques)
+        tj = probL.truth.reshape(sizes)
+        muL = CliqueVector({cl: Factor(eL.model.domain.project(cl), O.marginal(tj, attrs, cl)) for cl in clL})
+        xL = flat(muL, clL)
+        FL = lambda v: eL._marginal_loss(unflat(v, muL, clL), metric='L1')
+        _, gL = FL(xL)
+        gL = flat(gL, clL)
+        for i in range(xL.size):
+            fd = []
+            for hh in (1e-3, 5e-4):
+                e = np.zeros(xL.size)
+                e[i] = hh
+                fd.append((FL(xL + e)[0] - FL(xL - e)[0]) / (2 * hh))
+            acc.evals += 1
+            if abs(fd[0] - fd[1]) > 1e-5 * max(1.0, abs(fd[0])):
+                continue    # a kink of the absolute value lies within the difference interval
+            if not abs(fd[0] - gL[i]) <= 1e-4 * max(1.0, abs(gL[i])):
+                fails.append(('gradient-L1', 'total 1e7, residuals of a few records: L1 gradient coordinate %d is %.8g, central difference gives %.8g' % (i, gL[i], fd[0])))
+                break
     # the same projection measured several times with same-shaped but different queries (identity, weighted identity, prefix sums)
     dup = [c for c in set(struct) if list(struct).count(c) >= 2]
     if dup or len(struct) == 1:
